@@ -430,8 +430,8 @@ def correspondence(ctx):
     per = 4 if ctx.quick else 14
     PER_FAM = {"eigensolve_sparse": 3}      # per-mode adjoint solver caches: more histories
     for fam in fams:
-        for _ in range(per * PER_FAM.get(fam, 1)):
-            case = zoo.GENERATORS[fam](nprng)
+        for kk in range(per * PER_FAM.get(fam, 1)):
+            case = zoo.generate(fam, nprng, kk + 4 * (ctx.seed % 3))
             if fam == "aggregation" and "sc" in case.name.split(".")[-1]:
                 pass  # undamped or damped: damped is exempt -> regenerate without damping below
             r = call_impl(history_oracle, case, nprng, int(nprng.integers(6, 20 if ctx.quick else 60)))
